@@ -9,23 +9,37 @@
 Returns True when the native run reproduces a failure."""
 import os
 import re
+import signal
 import subprocess
 
 import kani_run
 
+
+def _run(cmd, cwd, env, timeout):
+    proc = subprocess.Popen(cmd, cwd=cwd, env=env, stdout=subprocess.PIPE, stderr=subprocess.STDOUT, text=True, start_new_session=True)
+    try:
+        out, _ = proc.communicate(timeout=timeout)
+        return out
+    except subprocess.TimeoutExpired:
+        try:
+            os.killpg(proc.pid, signal.SIGKILL)
+        except ProcessLookupError:
+            pass
+        proc.communicate()
+        return None
+
 PLAYBACK_TARGET = os.path.join(kani_run.VERIF, ".cache", "kani-playback-target")
 
 
-def kani_concrete(v, rec, scratch, timeout=1500):
+def kani_concrete(v, rec, scratch, timeout=int(os.environ.get("VERIF_REPLAY_TIMEOUT", "600"))):
     crate, harness = v["crate"], v["harness"]
     env = dict(os.environ, CARGO_NET_OFFLINE="true", CARGO_TARGET_DIR=kani_run.TARGET)
     cmd = ["cargo", "kani"] + kani_run.BASE_ARGS + ["-Z", "concrete-playback", "--concrete-playback=print", "--harness", harness]
-    try:
-        p = subprocess.run(cmd, cwd=crate, env=env, capture_output=True, text=True, timeout=timeout)
-    except subprocess.TimeoutExpired:
-        rec["note"] = "concrete playback timed out after %ds" % timeout
+    lim = int(16 * 1024 * 1024)
+    out = _run(["bash", "-c", "ulimit -v %d; exec " % lim + " ".join("'%s'" % c for c in cmd)], crate, env, timeout)
+    if out is None:
+        rec["note"] = "concrete playback timed out after %ds (VERIF_REPLAY_TIMEOUT); the violation stands, no input extracted" % timeout
         return False
-    out = p.stdout + p.stderr
     m = re.search(r"```\n(.*?)```", out, re.S)
     if not m:
         rec["note"] = "Kani printed no concrete playback test (no counterexample values available)"
@@ -57,12 +71,10 @@ def kani_concrete(v, rec, scratch, timeout=1500):
     open(f, "w").write(src)
     env2 = dict(os.environ, CARGO_NET_OFFLINE="true", CARGO_TARGET_DIR=PLAYBACK_TARGET, RUST_BACKTRACE="0")
     cmd2 = ["cargo", "kani", "playback", "-Z", "concrete-playback", "--lib", "--", test_name]
-    try:
-        q = subprocess.run(cmd2, cwd=crate, env=env2, capture_output=True, text=True, timeout=timeout)
-    except subprocess.TimeoutExpired:
+    nat = _run(cmd2, crate, env2, timeout)
+    if nat is None:
         rec["note"] = "native playback timed out"
         return False
-    nat = q.stdout + q.stderr
     rec["native_replay_cmd"] = " ".join(cmd2)
     pm = re.findall(r"panicked at ([^\n]*)\n([^\n]*)", nat)
     rec["native_replay_output"] = nat[-3000:]
